@@ -37,7 +37,7 @@ def laws(mk):
 
 def main(tier):
     chk = Check("C13", tier)
-    chk.prove(checker=(tier == "thorough"))
+    chk.prove(modules=["PyPred.Props.C13", "PyPred.Props.C13Total"], checker=(tier == "thorough"))
     cfg, detail = optcorr.detect_cfg()
     chk.extra["cfg"] = cfg
     atoms = [(d, th) for d, th in pool.atom_thunks() if not d.startswith(("all ", "any "))]
